@@ -197,6 +197,31 @@ def brute_descendants(nodes, edges):
 # cache bugs to the query lanes (rejected cycle-closing edge, partially failing bulk adder, warm caches in between)
 # ----------------------------------------------------------------------------------------------------------------
 
+_FAILURES = []
+
+
+def take_failures():
+    """what the builders noticed while building (a detour that must be the identity changed the graph, a constructor fed a
+    faithful encoding built another graph): the lane adds it to its oracle failures"""
+    out = list(_FAILURES)
+    del _FAILURES[:]
+    return out
+
+
+def full_shape(g):
+    """names with variable type and metadata, typed edges in stored orientation with metadata, graph metadata"""
+    import json
+
+    def t(e):
+        v = e.get_edge_type()
+        return v.value if hasattr(v, 'value') else str(v)
+
+    def j(m):
+        return json.dumps(m, sort_keys=True, default=str)
+    return ([(n.identifier, n.variable_type.value, j(n.meta)) for n in g.get_nodes()],
+            sorted((e.source.identifier, e.destination.identifier, t(e), j(e.meta)) for e in g.get_edges()), j(g.meta))
+
+
 def reroute(g, key):
     """deterministic in `key`: sometimes the lane gets the same graph after a trip through JSON text (edge types and
     variable types then arrive as plain strings, caches are cold, indexes are rebuilt in dictionary order) or through
@@ -252,6 +277,8 @@ def reroute(g, key):
         else:
             h2 = type(g).from_dict(json.loads(json.dumps(g.to_dict()))) if h % 5 == 0 else g.copy()
         if shape(h2) != shape(g):
+            _FAILURES.append(f'construction route {route}: the graph built from a faithful encoding of {shape(g)[1][:6]} has '
+                             f'edges {shape(h2)[1][:6]} and nodes {shape(h2)[0][:8]}')
             return g, ['route:changed-the-graph']
     except Exception:  # noqa: BLE001 - a graph the route cannot carry (entered with validate=False, odd metadata)
         return g, []
@@ -288,7 +315,27 @@ def _warm(g):
 
 
 def stress(g, key):
-    """deterministic in `key`; returns the list of interactions performed (for tags)"""
+    """deterministic in `key`; returns the list of interactions performed (for tags).  Every interaction is, by the
+    reference semantics of the calls, the identity on the graph (refused calls, something that comes and goes, a rename there
+    and back, a retype there and back): if the graph differs afterwards that is recorded (`take_failures`)."""
+    try:
+        before = full_shape(g)
+    except Exception:  # noqa: BLE001
+        before = None
+    done = _stress(g, key)
+    if done and before is not None:
+        try:
+            after = full_shape(g)
+        except Exception as e:  # noqa: BLE001
+            after = ('!' + type(e).__name__,)
+        if after != before:
+            what = 'nodes' if after[0] != before[0] else ('edges' if len(after) > 1 and after[1] != before[1] else 'metadata')
+            _FAILURES.append(f'a sequence of calls that must leave the graph as it was ({", ".join(done)[:200]}) changed its '
+                             f'{what}: before {str(before[1])[:160]} after {str(after[1] if len(after) > 1 else after)[:160]}')
+    return done
+
+
+def _stress(g, key):
     import hashlib
     h = int(hashlib.sha1(repr(key).encode()).hexdigest(), 16)
     if h % 2:
